@@ -704,7 +704,7 @@ T1_GROUPS = [
 
 def t1_bears_on(pid, log):
     """Names of broken T1 items in a translator / lake log, and whether any of them bears on `pid`."""
-    names = set(re.findall(r"gen_(\w+?)(?:_eq|_model)?\b", log)) | set(re.findall(r"fn (\w+)", log)) | set(re.findall(r"'(\w+(?:\.\w+)+)'", log))
+    names = set(re.findall(r"gen_(\w+?)(?:_eq|_model)?\b", log)) | set(n.replace("::", "_") for n in re.findall(r"\bfn ([\w:]+)", log))
     names = {n for n in names if n and n not in ("", "fn")}
     if not names:
         return names, True
